@@ -14,9 +14,10 @@
 
    Code-shaped side: the boolean mask and the selection matrices R_free = I[mask],
    R_elim = I[~mask] (rows of the identity, kept as row-index sequences), and
-   complete(u) = R_free^T u + R_elim^T values.  Buggy = TRUE is the code as it stands
-   (values[k] lands on the k-th SMALLEST constrained dof); Buggy = FALSE takes the rows of
-   R_elim in the order of `indices`.  CodeAgrees compares it with the reference.
+   complete(u) = R_free^T u + R_elim^T values.  Buggy = TRUE is the code as it stood before the
+   "fix:" commit 436fa5c, R_elim = I[~mask] (values[k] lands on the k-th SMALLEST constrained dof) --
+   kept as negative control; Buggy = FALSE takes the rows of R_elim in the order of `indices`,
+   R_elim = I[indices], as the code does now.  CodeAgrees compares the model with the reference.
 
    State machine (one TLC behaviour = one fully specified call):
      ExtendIdx(i)  grows idx by one dof  -> every injective sequence in every order
@@ -32,7 +33,7 @@ CONSTANTS N,          \* size of the system (1..5)
           RModes,     \* subset of {"array", "zero"}
           Fmts,       \* subset of {"dense", "csr", "csc"}
           EVModes, ERModes, EFmts,   \* the same three, used when elim_rows is given
-          Buggy,      \* code-shaped model as the code stands today (negative control)
+          Buggy,      \* code-shaped model of the pre-fix selection matrix (negative control)
           DoEmit
 
 VARIABLES idx, phase, elim, helim, vm, rm, fmt, ref
